@@ -61,6 +61,15 @@ def _design(ctx):
     return {"module": mod, "states": res.distinct, "transitions": res.generated, "depth": res.depth}
 
 
+LOCKSTEP = {"C02", "C04", "C05"}       # properties that also get the lock-step clauses of Interp.tla
+
+
+def _lockstep(ctx):
+    from . import interplock
+    viols, cov, stats = interplock.run_lockstep(ctx)
+    return {"viols": [(v.key, v.case, v.detail, v.replay) for v in viols], "cov": cov}
+
+
 def run(ctx: core.Ctx) -> core.Outcome:
     design_run = _design(ctx)
     corp = engcorpus.corpus(ctx)
@@ -78,13 +87,21 @@ def run(ctx: core.Ctx) -> core.Outcome:
             small = {k: v for k, v in ev.items() if k not in ("ctl",)}
             viols.append(core.Violation(key=clause, case=tid, detail=f"method={r['method']} event#{line}={small}",
                                         replay={"method": r["method"], "steps": r["steps"], "line": line, "event": ev}))
+    lock_cov = {}
+    if ctx.prop in LOCKSTEP:
+        lk, _ = core.cached("interplock", ctx, lambda: _lockstep(ctx))
+        lock_cov = lk["cov"]
+        design_run = {"module": "Interp", "states": lock_cov["lockstep_states"], "transitions": lock_cov["lockstep_transitions"], "depth": 0}
+        for key, case, detail, replay in lk["viols"]:
+            if core.prop_of(key) == ctx.prop:
+                viols.append(core.Violation(key=key, case=case, detail=detail, replay=replay))
     fams = {}
     for r in corp["runs"]:
         fams[r["family"]] = fams.get(r["family"], 0) + 1
     design = corp["design"].get("RunState", {})
     sample = corp["runs"][len(corp["runs"]) // 2]
     cov = dict(states=design_run["states"], transitions=design_run["transitions"], design_spec=design_run["module"],
-               design_depth=design_run["depth"], replay_graph_states=design.get("states", 0),
+               design_depth=design_run["depth"], **lock_cov, replay_graph_states=design.get("states", 0),
                traces_validated_against_impl=val["ntraces"], events_validated=val["nevents"], runs_by_family=fams,
                graph_edges=design.get("edges", 0), event_kinds=val.get("event_kinds", {}), corpus_from_cache=corp["from_cache"], verdict_from_cache=hit, **val["tstats"],
                samples=[{"method": sample["method"], "steps": sample["steps"][:12]}])
